@@ -501,6 +501,55 @@ def r_samples_pixel(rule, root=None):
         rule.bad("fill|pixel|cover", "a filled tile must fill tile_size rows of tile_size pixels starting at each row's offset", A.where(rf))
 
 
+def _normals_in_step(fn):
+    """`self.out[P].normal = [G.dx, ..]` with P the k-th remembered offset and G the k-th gradient result, for
+    k over the first `grad` slots - as an enumerate, a zip or an index loop"""
+    from . import effects as E
+
+    for a in A.find(fn["body"], "Assign"):
+        lt = str(A.ftxt(a["left"]))
+        if not lt.endswith(".normal"):
+            continue
+        loops = [b_ for b_ in (A.enclosing_binders(fn["body"], a) or []) if b_[2].get("k") == "For"]
+        if not loops:
+            return False
+        loop = loops[-1][2]
+        lanes = A.lane_bindings(loop)
+        if lanes is None:
+            return False
+        idx, elems = lanes
+        env = E.env_at(loop["body"], a)
+        pix = E.canon(A.strip(a["left"])["e"]["index"], env) if A.strip(a["left"]).get("k") == "Field" and A.strip(A.strip(a["left"])["e"]).get("k") == "Index" else None
+        rhs = A.strip(a["right"])
+        if pix is None or rhs.get("k") != "Array" or len(rhs["elems"]) != 3:
+            return False
+        gs = {E.canon(A.strip(x)["e"], env) for x in rhs["elems"] if A.strip(x).get("k") == "Field"}
+        if len(gs) != 1:
+            return False
+        g = gs.pop()
+
+        def slot(name, base):
+            """-> (index key, bounded by grad?) when `name` is the k-th element of `base`"""
+            if name in elems:
+                src = elems[name]
+                m = re.fullmatch(re.escape(base) + r"(\[(0)?\.\.grad\])?", src)
+                if m:
+                    return (idx or "#lockstep", bool(m.group(1)))
+                return None
+            m = re.fullmatch(re.escape(base) + r"\[(\w+)\]", name)
+            if m and m.group(1) == idx:
+                return (idx, False)
+            return None
+
+        sp, sg = slot(pix, "self.scratch.columns"), slot(g, "out")
+        if sp is None or sg is None or sp[0] != sg[0]:
+            return False
+        rng = str(A.ftxt(A.strip(loop["iter"])))
+        bounded = sp[1] or sg[1] or rng in ("0..grad", "(0..grad)")
+        return bool(bounded)
+    return False
+
+
 def r_samples_voxel(rule, root=None):
     fn = worker_fn(VOX, "render_tile_pixels", root)
     t = txt(fn["body"])
@@ -550,12 +599,7 @@ def r_samples_voxel(rule, root=None):
     # back in step with those slots
     mo = t.fmatch("self.out[$O].depth=$Z;")
     slot = t.fmatch("self.scratch.columns[grad]=$O;", bind=mo) if mo is not None else None
-    back = (
-        t.fmatch("for($K,$P)inself.scratch.columns[0..grad].iter().enumerate(){let$G=out[$K];self.out[*$P].normal=") is not None
-        or t.fmatch("for($K,$P)inself.scratch.columns[..grad].iter().enumerate(){let$G=out[$K];self.out[*$P].normal=") is not None
-        or t.fmatch("for($P,$G)inself.scratch.columns[..grad].iter().zip(out.iter()){self.out[*$P].normal=") is not None
-        or t.fmatch("for($P,$G)inself.scratch.columns[0..grad].iter().zip(out.iter()){self.out[*$P].normal=") is not None
-    )
+    back = _normals_in_step(fn)
     if slot is not None and "(grad+=1);" in t and back:
         rule.ok("the k-th gradient result is stored in the pixel whose offset was remembered in slot k")
     else:
